@@ -159,6 +159,7 @@ SpartanShape(line) ==
     LET p == T!Split(Strip(line), " ") IN
     /\ IsAscii(line)                               \* self.request.encode("ascii")
     /\ Len(p) = 3 /\ (\A i \in 1..3 : p[i] # "") /\ PyIsDigit(p[3])         \* parts[2].isdigit()
+    /\ ~T!StartsWith(p[1], "/")                                             \* not parts[0].startswith("/")  [c3ed498]
 
 \* "yes" | "no" | the class raised.  D = the defects in force
 ClaimsGP(r, secure, D) ==
